@@ -271,8 +271,12 @@ def b_eval_rst(r, c, depth):
     k = r.random()
     if k < 0.45 and c.include_files and c.on("includes"):
         f = r.choice(c.include_files)
-        opt = r.choice(["", "", "   :literal:\n", "   :heading-offset: 1\n", "   :relative-images:\n",
-                        "   :start-line: 1\n", "   :code: python\n", "   :relative-docs: x\n"])
+        # §5.6: an include file may be included by several documents, and parsed as rST its Markdown text can
+        # form section titles, i.e. project-wide labels that Sphinx de-duplicates by read/merge order (upstream
+        # behaviour): rST includes are therefore literal/code, or carry a MyST-only option (an error in rST)
+        opt = r.choice(["   :literal:\n", "   :literal:\n", "   :heading-offset: 1\n", "   :relative-images:\n",
+                        "   :literal:\n   :start-line: 1\n", "   :code: python\n", "   :relative-docs: x\n",
+                        "   :code: text\n   :end-line: 3\n"])
         return f"```{{eval-rst}}\n.. include:: {f}\n{opt}```"
     body = r.choice([
         "A *rst* paragraph with ``literal``.",
@@ -296,6 +300,11 @@ def b_include(r, c, depth):
     f = r.choice(files)
     opts = {}
     k = r.random()
+    if r.random() < 0.1:  # malformed include directives: no argument, bad option values
+        return r.choice(["```{include}\n```", f"```{{include}} {f}\n:start-line: abc\n```",
+                         f"```{{include}} {f}\n:heading-offset: -1\n```", f"```{{include}} {f}\n:tab-width: x\n```",
+                         "```{include}\n:literal:\n```", f"```{{include}} {f}\n:relative-docs:\n```",
+                         f"```{{include}} {f}\n:end-before:\n```"])
     if k < 0.12:
         opts["literal"] = ""
     elif k < 0.2:
@@ -463,10 +472,20 @@ FM_BROKEN = [
 
 
 def front_matter(r, c: Ctx) -> str:
+    house = getattr(c, "house_front_matter", None)
+    if house is not None and r.random() < 0.45:
+        # several documents of one project carry the very same front matter (a "house style"), or the same
+        # 'myst:' section with different deprecated top-level keys: anything memoised per front matter shows
+        return house if r.random() < 0.6 else _with_top_level_keys(r, house)
     k = r.random()
     if k < 0.18 and c.on("front_matter_errors"):
         return r.choice(FM_BROKEN)
     lines = ["---"]
+    if r.random() < 0.2:
+        lines.append("substitutions: {key1: \"" + r.choice(["top one", "top two", "top *three*"]) + "\", top_only: "
+                     + r.choice(["1", "2"]) + "}")
+    if r.random() < 0.12:
+        lines.append("html_meta: {description: \"" + r.choice(["top desc A", "top desc B"]) + "\"}")
     if r.random() < 0.5:
         lines.append("title: " + r.choice(["FM Title", "x - y", "'q'"]))
     if r.random() < 0.3:
@@ -486,6 +505,29 @@ def front_matter(r, c: Ctx) -> str:
             lines.append(f"  {key}: {val}")
     lines.append("---")
     return "\n".join(lines) + "\n"
+
+
+def _with_top_level_keys(r, fm: str) -> str:
+    extra = r.choice(["substitutions: {key1: \"house one\"}\n", "substitutions: {key1: \"house two\"}\n",
+                      "html_meta: {description: \"house A\"}\n", "html_meta: {description: \"house B\"}\n"])
+    if fm.startswith("---\n") and fm.count("---") >= 2:
+        return "---\n" + extra + fm[4:]
+    return fm
+
+
+def house_front_matter(r, ext=()) -> str:
+    """One front matter that several documents of a project share."""
+    k = r.random()
+    if k < 0.25:
+        return "---\ntitle: House\n---\n"
+    if k < 0.45:  # identical front matter that produces a warning in every document that carries it
+        key, val = r.choice(FM_OVERRIDES_BAD)
+        return f"---\nmyst:\n  {key}: {val}\n---\n"
+    if k < 0.7:  # file-level-only extensions: the global configuration does not enable them
+        want = [e for e in ("dollarmath", "amsmath", "deflist", "colon_fence") if e not in ext] or ["dollarmath"]
+        return "---\nmyst:\n  enable_extensions: [" + ", ".join(r.sample(want, k=min(len(want), 2))) + "]\n---\n"
+    key, val = r.choice(FM_OVERRIDES_OK)
+    return f"---\nmyst:\n  {key}: {val}\n---\n"
 
 
 # ------------------------------------------------------------------ documents
@@ -627,11 +669,16 @@ def gen_project(r, *, n_docs=None, front_end="sphinx", features=None, cfg=None, 
         inv_keys = ["key"]
     labels: list[str] = []
     link_files = ["files/data.txt", "img.png"]
+    house = house_front_matter(r, cfg.get("enable_extensions", ())) if r.random() < 0.5 else None
     for d in docs:
         c = Ctx(d, [x for x in docs if x != d] + ["index"], [relpath_from(d, i) for i in incs], labels,
                 cfg.get("enable_extensions", ()), front_end, inv_keys, features,
                 [relpath_from(d, f) for f in link_files])
+        c.house_front_matter = house
         files[d + ".md"] = gen_doc(r, c, n_blocks=n_blocks)
+        if house is not None and "enable_extensions" in house and files[d + ".md"].startswith(house):
+            # content that needs the file-level extension
+            files[d + ".md"] = files[d + ".md"].rstrip("\n") + "\n\nInline $a^2$ math.\n\n$$\nb = 3\n$$\n\nTerm\n: Def\n"
     for i in incs:
         c = Ctx(i.rsplit(".", 1)[0], docs, [relpath_from(i, j) for j in incs if j != i] if r.random() < 0.3 else [],
                 labels, cfg.get("enable_extensions", ()), front_end, inv_keys, features,
